@@ -113,6 +113,8 @@ class SArr:
     __pow__ = __rpow__ = lambda s, o: s._bin(o)
     __neg__ = lambda s: SArr(s.shape, s.kind)
     __eq__ = __ne__ = __lt__ = __le__ = __gt__ = __ge__ = lambda s, o: s._bin(o, "bool")
+    __and__ = __rand__ = __or__ = __ror__ = __xor__ = __rxor__ = lambda s, o: s._bin(o, "bool" if s.kind == "bool" and kind_of(o) == "bool" else None)   # element-wise & | ^
+    __invert__ = lambda s: SArr(s.shape, s.kind)
     __hash__ = object.__hash__
 
     def __bool__(self):
